@@ -100,6 +100,7 @@ var onlyFilter string
 type storeDef struct{ base, idx, val string }
 
 type Eng struct {
+	siteExtra map[string]*Val
 	pendingUp *Frame
 	cloByTerm map[string]*Closure
 	covSeq int
